@@ -9,6 +9,7 @@ import random
 from common import *
 import c13
 
+COQ_FILES = ['Lib/Str.v', 'Lib/NumOps.v', 'Gen/ClassificationPy.v', 'C06/Model.v', 'C06/Proofs.v', 'C06/Props.v']
 SPECIAL = ['income', 'investment', 'transfer']
 KEYS = ['income_total', 'investment_total', 'spending_total', 'credits_total', 'transfers_in', 'transfers_out']
 
@@ -229,7 +230,7 @@ def main(tier):
         'str.lower is modelled for ASCII; tags in generated cases are ASCII',
         'the accumulation pass of analyze_transactions is modelled by hand (C06/Model.v) and tied by correspondence']
     tfails = [f for f in c13.translate_classification(run) if f['translator'] == 'py2coq']
-    res = run.proof_step('C06', ['Lib', 'Gen', 'C06'], extra_trusted=[
+    res = run.proof_step(COQ_FILES, extra_trusted=[
         'tools/py2coq.py (translator, fail closed)', 'harness/c06.py + harness/impl_c06.py (correspondence, oracle)'])
     broken = []
     if tfails:
